@@ -97,6 +97,8 @@ def handle (line : String) : String :=
         -- a render after a cancelled one is a fresh render: every task (in order of first occurrence in
         -- the view), then every resource, completes
         | "blockdrop" => runBlock (World.start .block vs) (allEvents vs)
+        -- likewise a streaming render after an abandoned streaming render on the same executor
+        | "streamdrop1" => runStream (World.start .stream vs) (allEvents vs)
         | _ => "bad-op"
       | _, _ => "bad-op"
     | _, _ => "bad-op"
